@@ -1630,7 +1630,9 @@ func ruleAddDegree(c *Ctx) {
 		accName[v] = k
 	}
 	// the whole function on its whole domain, by folding, when it folds: how the spellings are enumerated no longer matters
+	addDegreeDecided := false
 	if problem, calls, ok := c.addDegreeByFolding(fn); ok {
+		addDegreeDecided = problem == ""
 		c.site(1)
 		c.check(problem == "", name+"|domain", c.pos(fn.Pos()), name, fmt.Sprintf("%d calls (21 spellings x every interval 0..16 of every quality x both preferences) folded: natural spelling when there is one, else the preferred accidental; octave = floor(sum / 12); invalid intervals refused", calls), name+": "+problem)
 		c.addDegreeFolded = true
@@ -1749,8 +1751,11 @@ func ruleAddDegree(c *Ctx) {
 		})
 		c.check(okConst && cnt >= 1 && negAdj, fname(f), c.pos(f.Pos()), fname(f), "divides by 12 with floor semantics for negative values", fmt.Sprintf("%s: uses-12=%v divisions=%d negative-adjustment=%v", fname(f), okConst, cnt, negAdj))
 	}
-	// findNameBySemitone: letter + accidental == wanted
-	if f := c.fn("note", "Note.findNameBySemitone"); f != nil {
+	// findNameBySemitone: letter + accidental == wanted (a shape; decided with AddDegree when that folds on its domain)
+	if f := c.fn("note", "Note.findNameBySemitone"); f != nil && addDegreeDecided {
+		c.site(1)
+		c.ok(fname(f), c.pos(f.Pos()), fname(f), "decided by note.Note.AddDegree|domain: every spelling x interval x preference folded, however the letter is found")
+	} else if f != nil {
 		c.site(1)
 		good := false
 		allInstrs(f, func(in ssa.Instruction) {
@@ -2037,7 +2042,7 @@ func (c *Ctx) checkDecodersKeepWhatTheyRead() {
 				n := calleeName(ci.Common())
 				switch {
 				case strings.HasPrefix(n, "gopkg.in/yaml.v3."), strings.HasPrefix(n, "errorx."), strings.HasPrefix(n, "builtin."), strings.HasPrefix(n, "log/slog."), strings.HasPrefix(n, "logx."),
-					strings.HasPrefix(n, "fmt."), strings.HasPrefix(n, "slices.IndexFunc"), strings.HasPrefix(n, "slices.ContainsFunc"), strings.HasPrefix(n, "bytes."), strings.HasPrefix(n, "io."), strings.HasPrefix(n, "errors."):
+					strings.HasPrefix(n, "fmt."), strings.HasPrefix(n, "slices.Index"), strings.HasPrefix(n, "slices.Contains"), strings.HasPrefix(n, "bytes."), strings.HasPrefix(n, "io."), strings.HasPrefix(n, "errors."):
 				default:
 					if callee := staticCallee(ci.Common()); callee != nil && c.isRepoFunc(callee) && pkgOfFunc(callee) == pkgOfFunc(pi) {
 						continue // a helper of the command package: looked into as part of the region
